@@ -44,7 +44,7 @@ claim("C01", "MIR must-pass-through + sibling agreement of header tables + domin
       "between the per-entry counter and the push, with offset-addressed-only edges derived from the code; read_next's cursor commits are followed by the return of the entry just read; "
       "(2) the two encoders and seven decoders agree on the header tables (symbolic expressions reconstructed from MIR); (3) every Entry construction is dominated by the checksum-equal edge; (4) the first planned range of a batch read is widened to the entry at the cursor (shared with C03.3); (5) both paths of Reader::append_block_to_chain carry a tail position "
       "over to the sealed chain identically and only under tail_block_id == block.id; (6) once the batch parser has stopped for the byte budget (entry does not fit, or the planned range was cut in front of / inside an entry) nothing more is pushed (shared with C03.4); "
-      "(7) a reader steps to the next block of the chain only under `cursor offset >= block.used`. "
+      "(7) every step to the next block of the chain - read_next's advance, the batch planner's index, the batch parser's committed position (followed through the commit closure) - is taken only under `offset reached >= block.used` (the planner: only after a range planned to the end of the block). "
       "Ordering, once-only delivery across blocks and the planner/budget interaction are not decided.", design="4/C01")
 claim("C04", "MIR path rules over Ok/Err edges (NOEXIT, must-not-reach), error discipline",
       "Decides for all inputs and failure points the shape conditions of 'failed appends leave no trace': no exit between sealing a block and installing its successor, rejections precede "
@@ -68,7 +68,7 @@ claim("C16", "MIR sibling agreement via symbolic expression reconstruction + rin
 claim("C05", "MIR RMW rule on slices with lock-guard provenance + truth table of the hold flag",
       "Schedules are not enumerated. The check decides, for every path, the absence of the atomicity-violation shapes that make duplicate delivery possible: a cursor commit computed "
       "from state read under another acquisition of the column lock, and a consuming stateful batch read that releases its guard between planning and commit (hold flag truth table "
-      "evaluated over its defining sub-CFG for all valuations of consistency - including the payload of AtLeastOnce -, checkpoint and start_offset). Ordering between producers and fairness are not decided.", design="4/C05")
+      "evaluated over its defining sub-CFG for all valuations of consistency - including the payload of AtLeastOnce -, checkpoint and start_offset); and on the producer side that Writer::write and Writer::batch_write hold the current_block and current_offset guards taken before planning until after their last storage write (no release point reaches a write). Ordering between producers and fairness are not decided.", design="4/C05")
 claim("C09", "MIR only-allowed-bypass between commit and persist + reaching stores + finite evaluation + ORD",
       "Decides persist-before-return for StrictlyAtOnce as a path property: from each cursor commit the persisted-index write can be bypassed only by the should_persist verdict, "
       "checkpoint=false or a poisoned lock, and every WalIndex method used to record the position persists on all of its paths; the (index, offset) pair that is packaged for the "
@@ -87,7 +87,7 @@ claim("C17", "MIR call-graph must-reach with only-allowed-bypass + state-machine
 claim("C06", "MIR sibling agreement of layout tables + natural-loop exit and loop-bound rules",
       "Decides three structural clauses for every input: the allocator's block layout (limit, offset step) equals the recovery scan's (limit = stride = DEFAULT_BLOCK_SIZE), and the "
       "per-file unit loop of recovery has no exit other than its condition (an unreadable unit is skipped, never ends the scan), and the entry scan of one unit is bounded by the unit (it cannot iterate without comparing its read offset with the "
-      "stride). Cursor translation across synthetic block ids, counts "
+      "stride); a persisted tail position (TAIL_FLAG | block id) is translated into a chain position by the block's identity, searched over the whole chain, never by its place (shared with C09.3). Counts "
       "after restart and clock regression are not decided.", design="4/C06")
 claim("C07", "MIR dominance along the resolved call chain + plan completeness + verified-reader dataflow + error-source table",
       "Ack-after-write decided on all paths from the public append APIs down to the positional write of each backend, plan completeness/element agreement in both batch paths, and that "
@@ -105,24 +105,24 @@ claim("C13", "static inventory + interprocedural key provenance + who-may-call f
 claim("C18", "MIR (stub harness) panic-freedom + def-use/ordering invariants + written lemma",
       "The real metadata.rs is type-checked with stub dependencies and analysed on MIR: every panic obligation of apply/snapshot/restore is discharged or reported (operands sliced to "
       "the decoded command can never be discharged), and seven structural invariants of apply are decided for all paths; with the lemma in the evidence they give contiguity 1..current, "
-      "immutability of sealed entries, leader consistency and offset = sum of counts for every command sequence.", design="4/C18",
+      "immutability of sealed entries (the history maps are reached mutably only through insert), leader consistency and offset = sum of counts for every command sequence.", design="4/C18",
       note=MIR_NOTE + " distributed-walrus cannot be built offline; harness/dwshim type-checks the real file against signature-only stubs whose faithfulness is checked (C18.3).")
 claim("C20", "AST dataflow on the adapter + MIR type/whole-state obligations",
       "Decides where the adapter's snapshot bytes come from and what restore receives (two known findings), unconditional in-order forwarding of Normal entries, and that Metadata "
       "snapshot/restore are type-symmetric, whole-state and skip no field. The Raft snapshot transport is not decided.", note=AST_NOTE, engine="ast", design="4/C20")
-claim("C21", "AST path rules + literal-argument rule backed by MIR effect analysis of the vendored engine",
+claim("C21", "AST path rules + literal-argument rule backed by MIR effect, verified-reader and only-allowed-bypass analyses of the vendored engine",
       "Decides persist-before-acknowledge for every WalLogStore mutator, exhaustive replay of record kinds, the peer-address flag correlation, and that the recovery read is "
-      "non-consuming (known finding: it is durably consuming, shown via the vendored engine's MIR). Contents after replay are not decided.", note=AST_NOTE, engine="ast", design="4/C21")
-claim("C22", "AST path enumeration of bookkeeping pairings",
+      "non-consuming (known finding: it is durably consuming, shown via the vendored engine's MIR); on the MIR of the vendored engine copy, that its recovery scan counts only checksum-verified records and that its batch read can get past a record larger than read_all's byte budget (known finding: it cannot). Contents after replay are not decided.", note=AST_NOTE, engine="ast", design="4/C21")
+claim("C22", "AST path enumeration of bookkeeping pairings + must-pass-through of the lease refresh",
       "Only the bookkeeping pairings without which the property fails on every schedule: one count per acknowledged append before the rollover test, the sealed count proposed is the "
-      "tracked count of that very segment, the reader's per-segment counter moves exactly with returned entries. The interleaving clauses (rollover racing appends, duplicate rollovers) "
+      "tracked count of that very segment, the reader's per-segment counter moves exactly with returned entries, every path of forward_append refreshes the leases before it appends, and the lease test and the engine append form one critical section (known finding, shared with C23.1: they do not; two concurrent PUTs at a threshold of 1 lose the second). The other interleaving clauses (duplicate rollovers, monitor timing) "
       "are explicitly not decided.", note=AST_NOTE, engine="ast", design="4/C22")
 claim("C23", "AST structural check of the lease/write critical section + who-may-call",
       "Decides whether the lease test and the engine append form one critical section with respect to lease updates (two accepted idioms; known finding: check-then-lock-then-write), that "
-      "every engine write goes through append_by_key under the bucket guard, and that leases are refreshed before appends.", note=AST_NOTE, engine="ast", design="4/C23")
-claim("C24", "AST path enumeration of the frame loop",
-      "Enumerates every acyclic path of one iteration of the frame loop: body consumed or connection closed, exactly one response per frame, payload pass-through in the command parser. "
-      "Holds for every byte stream because each path is covered.", note=AST_NOTE, engine="ast", design="4/C24")
+      "every engine write goes through append_by_key under the bucket guard, and that every path of forward_append to the append has refreshed the leases first.", note=AST_NOTE, engine="ast", design="4/C23")
+claim("C24", "AST path enumeration of the frame loop + syntax-tree panic-site enumeration with typed discharge",
+      "Enumerates every acyclic path of one iteration of the frame loop: body consumed or connection closed, exactly one response per frame, payload pass-through in the command parser; and no function of client.rs reachable from the frame loop contains an undischarged panic site (a str cut at a byte position, unbounded index, unwrap/expect, panic macros), since a panic of the connection task leaves that frame and all later ones unanswered. "
+      "Holds for every byte stream because each path is covered; panics inside the controller methods called from client.rs are not followed.", note=AST_NOTE, engine="ast", design="4/C24")
 claim("C25", "MIR (stub harness) codec obligations + written lemma",
       "Codec obligations on the MIR of wal_key / parse_wal_key (template bytes, argument order/types, resolved str methods with their literals, the symbolic expression of the result) "
       "plus the lemma in the evidence give parse(wal_key(t, s)) = (t, s) for all strings and all u64, hence injectivity.", design="4/C25",
